@@ -77,15 +77,17 @@ def run_streams(res: Result, streams: list[Stream], broken, known_match=None, ma
     unmatched = 0
     seen_known = set()
     for st, l, io, why in failures:
-        kid = known_match(st.name, l, why) if known_match else None
-        if kid:
-            if kid not in seen_known:
-                seen_known.add(kid)
-                res.known.append(kid)
+        sig = known_match(st.name, l, why) if known_match else None
+        kf = known_lookup(res.pid, sig) if sig else None
+        if kf:
+            if sig not in seen_known:
+                seen_known.add(sig)
+                res.known.append(f"[{sig}] {kf['what']} (e.g. {l[:120]})")
+            res.hist("known_finding_cases", sig)
             continue
         unmatched += 1
         if unmatched <= max_report:
-            small = _shrink(st, l, lambda c: bool(st.oracle(c, st.impl(c))) and not (known_match and known_match(st.name, c, st.oracle(c, st.impl(c)))))
+            small = _shrink(st, l, lambda c: bool(st.oracle(c, st.impl(c))) and not (known_match and known_lookup(res.pid, known_match(st.name, c, st.oracle(c, st.impl(c))))))
             sio = st.impl(small)
             res.violation(f"stream={st.name} {st.oracle(small, sio) or why}"[:300],
                           {"kind": "property-fails-on-implementation", "stream": st.name, "line": small,
